@@ -174,7 +174,7 @@ func runReplay(path string, wantSnap bool) (*historyResult, error) {
 			var req *mockReq
 			k := 0
 			for _, r := range w.mq.outstanding() {
-				if w.absSubject(r.subject) == p[1] && absPayload(r.subject, r.payload, w.cname) == p[2] {
+				if w.absSubject(r.subject) == p[1] && w.absSubject(absPayload(r.subject, r.payload, w.cname)) == p[2] {
 					if k == occ {
 						req = r
 						break
